@@ -17,6 +17,7 @@ REGISTRY = {
     "C07": ("bpmc.checks.c07", "C07"),
     "C08": ("bpmc.checks.c08", "C08"),
     "C09": ("bpmc.checks.c09", "C09"),
+    "C10": ("bpmc.checks.c10", "C10"),
     "C11": ("bpmc.checks.c11", "C11"),
     "C12": ("bpmc.checks.c12", "C12"),
     "C13": ("bpmc.checks.c13", "C13"),
